@@ -1055,6 +1055,9 @@ func readerCases(thorough bool) []Case {
 	for _, c := range comps {
 		for _, place := range []string{"file", "dir", "deep", "sub"} {
 			for _, ctx := range []string{"alone", "mid"} {
+				if !thorough && ctx == "alone" && (place == "deep" || place == "sub") {
+					continue // quick: the lone-path context only for file and dir placement
+				}
 				for _, sh := range shapes {
 					cs = append(cs, Case{Kind: "reader", Comps: []string{c.Name}, Place: place, Ctx: ctx, Shape: sh})
 				}
